@@ -723,6 +723,34 @@ theorem rounded_conservation {V : Type} {N : ℤ} (hr : Rounding rnd N) (g : Gri
     simp only [hcells']
     exact hw w g.nrow.toNat g.ncol.toNat obs hrange
 
+/-- the extent under rounding. `Raster.__init__` enlarges the bounding box by `margin` in floating point
+(`xmin = bx0 - margin * (bx1 - bx0)`, … — four rounded operations per bound). For ANY monotone rounding with `rnd 0 = 0`
+(no error bound needed), a bounding box whose four numbers are representable (`rnd b = b`: they ARE floats, read from the
+observations) and `margin ≥ 0`, the extent the constructor computes still contains the bounding box, and is not
+inverted: every observation of the collection satisfies the hypotheses `hx`, `hy` / `hin` of `rounded_cell_in_grid` /
+`rounded_conservation` -/
+theorem rounded_extent_contains_bbox (hmono : Monotone rnd) (h0 : rnd 0 = 0)
+    (bx0 bx1 by0 by1 rx ry margin : RQ rnd)
+    (hx : bx0.v ≤ bx1.v) (hy : by0.v ≤ by1.v) (hm : 0 ≤ margin.v)
+    (rx0 : rnd bx0.v = bx0.v) (rx1 : rnd bx1.v = bx1.v) (ry0 : rnd by0.v = by0.v) (ry1 : rnd by1.v = by1.v) :
+    let g := mkGrid RQ.ceil bx0 bx1 by0 by1 rx ry margin
+    g.xmin.v ≤ bx0.v ∧ bx1.v ≤ g.xmax.v ∧ g.ymin.v ≤ by0.v ∧ by1.v ≤ g.ymax.v ∧
+      g.xmin.v ≤ g.xmax.v ∧ g.ymin.v ≤ g.ymax.v := by
+  have key : ∀ a b : RQ rnd, a.v ≤ b.v → rnd a.v = a.v → rnd b.v = b.v →
+      (a - margin * (b - a)).v ≤ a.v ∧ b.v ≤ (b + margin * (b - a)).v := by
+    intro a b hab ra rb
+    have hd : 0 ≤ rnd (b.v - a.v) := by
+      have := hmono (show (0 : ℚ) ≤ b.v - a.v by linarith); rwa [h0] at this
+    have hmd : 0 ≤ rnd (margin.v * rnd (b.v - a.v)) := by
+      have := hmono (mul_nonneg hm hd); rwa [h0] at this
+    simp only [RQ.sub_v, RQ.add_v, RQ.mul_v]
+    constructor
+    · have := hmono (show a.v - rnd (margin.v * rnd (b.v - a.v)) ≤ a.v by linarith); rwa [ra] at this
+    · have := hmono (show b.v ≤ b.v + rnd (margin.v * rnd (b.v - a.v)) by linarith); rwa [rb] at this
+  obtain ⟨hx0, hx1⟩ := key bx0 bx1 hx rx0 rx1
+  obtain ⟨hy0, hy1⟩ := key by0 by1 hy ry0 ry1
+  exact ⟨hx0, hx1, hy0, hy1, le_trans hx0 (le_trans hx hx1), le_trans hy0 (le_trans hy hy1)⟩
+
 end rounded
 
 /-! Non-vacuity of the rounded statements: `rnd8` (exact below 1 in magnitude, rounded DOWN to a multiple of 1/8 above:
@@ -746,6 +774,11 @@ the constructor's count the observation at `ymax` is sent to line `-1`, which Py
 line -/
 example : getCell RQ.floor { gEx with nrow := 2 } ⟨1⟩ ⟨13 / 4⟩ = some (0, -1)
     ∧ put (emptyCells 2 1 : Cells ℕ) (-1) 0 7 = some [[[]], [[7]]] := by decide +kernel
-
+/-- the hypotheses of `rounded_extent_contains_bbox` on the example grid -/
+example : let g := gEx; g.xmin.v ≤ 0 ∧ (1 : ℚ) ≤ g.xmax.v ∧ g.ymin.v ≤ 0 ∧ (13 / 4 : ℚ) ≤ g.ymax.v ∧
+    g.xmin.v ≤ g.xmax.v ∧ g.ymin.v ≤ g.ymax.v :=
+  rounded_extent_contains_bbox rnd8_mono (by decide +kernel) ⟨0⟩ ⟨1⟩ ⟨0⟩ ⟨13 / 4⟩ ⟨1⟩ ⟨21 / 20⟩ ⟨0⟩
+    (by decide +kernel) (by decide +kernel) (by decide +kernel) (by decide +kernel) (by decide +kernel)
+    (by decide +kernel) (by decide +kernel)
 
 end TV.C19
